@@ -3,7 +3,7 @@ use crate::engine::Out;
 use crate::factory::{self, *};
 use crate::report::Report;
 use crate::util::{classify_refusal, fp64, guarded, Refusal};
-use crate::world::{net_req, reset_canister, WorldCfg};
+use crate::world::{net_req, WorldCfg};
 use bitcoin::absolute::LockTime;
 use bitcoin::transaction::Version;
 use bitcoin::{Amount, OutPoint, ScriptBuf, Sequence, Transaction, TxIn, TxOut, Witness};
@@ -304,15 +304,35 @@ pub fn run(tier: &str) -> i32 {
     let canister_nets = if quick { vec![Network::Regtest, Network::Mainnet] } else { vec![Network::Regtest, Network::Mainnet, Network::Testnet] };
     let results: Vec<Out> = std::thread::scope(|sc| {
         let mut hs = vec![];
+        // (canister network, api access, canister behind the announced headers)
+        let mut variants: Vec<(Network, bool, bool)> = vec![];
         for cn in &canister_nets {
             for access in [true, false] {
+                variants.push((*cn, access, false));
+            }
+        }
+        // the sync rule does not apply to send_transaction: same verdicts on a canister that
+        // is more than two blocks behind the announced headers (sync flag on)
+        variants.push((Network::Regtest, true, true));
+        for (cn, access, unsynced) in variants {
+            {
                 let bases = &bases;
-                let cn = *cn;
                 hs.push(sc.spawn(move || {
                     let mut out = Out::default();
                     let mut cfg = WorldCfg::on(cn, 2);
                     cfg.api_access = access;
-                    reset_canister(&cfg);
+                    cfg.disable_if_not_synced = unsynced;
+                    let mut world = crate::world::World::new(cfg.clone());
+                    if unsynced {
+                        let a = crate::chain::apply_ev(&mut world, &crate::chain::Ev::Hdr { on: 0, len: 4 });
+                        assert_eq!(a, crate::chain::Applied::HeadersAnnounced);
+                        // the other data endpoints do refuse in this state
+                        let r = world.balance(world.book.text(0), None);
+                        if !matches!(r, Err(ref p) if p.starts_with("Canister state is not fully synced")) {
+                            out.violation("machinery:unsynced-setup", None, json!({"got": format!("{:?}", r)}));
+                        }
+                        out.count("unsynced_canister_variants");
+                    }
                     let source = with_state(|s| s.blocks_source);
                     let mut seen: HashSet<u64> = HashSet::new();
                     for (name, base) in bases.iter() {
@@ -333,7 +353,7 @@ pub fn run(tier: &str) -> i32 {
                                 out.states += 1;
                                 seen.insert(fp64(&payload));
                                 let hist = || json!({"base": name, "payload": hex::encode(&payload), "canister_network": cn.to_string(),
-                                    "requested_network": rn.to_string(), "api_access": access});
+                                    "requested_network": rn.to_string(), "api_access": access, "canister_behind_announced_headers": unsynced});
                                 let expect_refusal = !access || rn != cn;
                                 match r {
                                     Err(p) => {
@@ -427,6 +447,7 @@ pub fn run(tier: &str) -> i32 {
     rep.floor("accepted_well_formed", 50);
     rep.floor("refused_malformed", 10_000);
     rep.floor("guard_refusals", 10_000);
+    rep.floor("unsynced_canister_variants", 1);
     let _ = factory::REGTEST_BITS;
     rep.finish()
 }
